@@ -435,6 +435,7 @@ class Model:
         self.stack = []  # snapshots; [0] is the enclosing (outer) transaction
         self.name_ctr = 0
         self.keyswitched = set()  # idx of objects whose primary key change was flushed in the open outer transaction
+        self.keyswitch_log = []  # idx, one entry per flushed key switch (consumed by the interpreter)
         self.dirty = False  # unflushed changes may exist
         self.push()
 
@@ -620,6 +621,7 @@ class Model:
                 self.rows[key] = self._row_of(o, oldrow)
                 if oldrow is not None and "name" in oldrow and oldrow["name"] != self.rows[key]["name"]:
                     self.keyswitched.add(o.idx)
+                    self.keyswitch_log.append(o.idx)
         if U.fam == "pct":
             for c in self.objs:
                 if c.state in "PS" and not c.dead and U.childish(c.kind):
@@ -776,6 +778,9 @@ class Interp:
         self.counters = {"flush_checks": 0, "tx_checks": 0, "ops": 0, "skipped": 0}
         self.warnings = []
         self.trace = []
+        self.ks_depth = {}  # idx -> savepoint depth at which its (latest) key switch was flushed
+        self.ks_released = {}  # idx -> depth the key switch belongs to after its savepoint was released
+        self._ks_consumed = 0
         self.scope_modified = []  # per open savepoint: objects whose attributes the program changed inside it
         self.scope_loaded = []  # per open savepoint: {idx: attribute keys loaded when it began}
         self.scope_children = []  # per open savepoint: children whose collection membership changed (one-directional o2m)
@@ -850,7 +855,14 @@ class Interp:
                           f"only UPDATEs are needed: {str(e)[:200]}")
             raise
 
-    def _note_flush(self):
+    def _note_flush(self, depth=None):
+        depth = len(self.nested) if depth is None else depth
+        log = self.model.keyswitch_log
+        for idx in log[self._ks_consumed:]:
+            self.ks_depth[idx] = depth
+            if depth >= 1:
+                self.classes.add("pk-switch-flushed-inside-savepoint")
+        self._ks_consumed = len(log)
         if self.on_flush is not None:
             self.on_flush(set(self.flush_kinds), set(self.flush_mappers))
         self.orphan_of = {}
@@ -1068,6 +1080,9 @@ class Interp:
                 self.ctx.exclude("delete-orphan: pending child moved to another parent in one step (known finding)")
                 return False
             self.triggers.append("delete-orphan/pending-child-moved-to-other-parent-is-expunged")
+        split_done = self._split_flush_for_tree_move(c, p)  # before any step of the move
+        if split_done and (c.parent is not old or not self.linkable(c) or not self.linkable(p)):
+            return False
         if old is not None and not self.U.is_bidir:
             # no backref: the application removes the child from the old collection itself
             if not m.insess(old) and m.insess(c):
@@ -1083,7 +1098,6 @@ class Interp:
             c.parent = None
             if self.U.casc_orphan and moved_state == "P":
                 c.state = "T"  # documented: pending orphan is expunged, re-attached by the append below
-        self._split_flush_for_tree_move(c, p)
         self._preload_parent(c)
         self._ensure_session_for_link(p, c)
         self.do(lambda: self._coll_add(p.real.children, c.real))
@@ -1325,6 +1339,11 @@ class Interp:
             # with autoflush off, an unloaded collection would later be loaded by the *new* key value
             # (and come back empty); an application in that mode loads it before switching the key
             self.do(lambda: p.real.children)
+        if p.state == "S" and p.idx in self.ks_depth and self.ks_depth[p.idx] < len(self.nested):
+            if not self.pinned:
+                self.ctx.exclude("second key switch of a row inside a deeper savepoint than the first (known finding: release overwrites the original key)")
+                return False
+            self.triggers.append("nested/key-switch-chain-loses-original-key-on-release")
         if p.state == "S" and m.stack[0]["states"].get(p.idx, "T") in "TP":
             if not self.pinned:
                 self.ctx.exclude("key switch of a row inserted in the same transaction: a rollback leaves the object detached, not transient (known finding)")
@@ -1646,7 +1665,9 @@ class Interp:
         if self.rich_rollback:
             self.classes.add("commit-after-rich-rollback")
         self.model.m_commit()
-        self._note_flush()
+        self._note_flush(depth=depth)
+        self.ks_depth.clear()
+        self.ks_released.clear()
         self.pending_check = False
         self.classes.add("commit" if not depth else "commit-through-savepoints")
         self.mark_boundary()
@@ -1666,6 +1687,10 @@ class Interp:
         del self.scope_modified[:]
         del self.scope_loaded[:]
         self.rich_rollback = False
+        if self.ks_released:
+            self.classes.add("pk-switch-in-released-savepoint-then-outer-rollback")
+        self.ks_depth.clear()
+        self.ks_released.clear()
         self.model.m_rollback_to(0)
         self.flush_kinds = set()
         self.flush_mappers = set()
@@ -1682,7 +1707,7 @@ class Interp:
         before = self.flush_count
         self.nested.append(self.guard(self.session.begin_nested))
         self.model.m_flush()
-        self._note_flush()
+        self._note_flush(depth=len(self.nested) - 1)
         self.model.push()
         self.scope_kinds.append(set())
         self.scope_children.append(set())
@@ -1702,7 +1727,15 @@ class Interp:
         self.scope_modified.pop()
         self.scope_loaded.pop()
         self.model.m_release()
-        self._note_flush()
+        self._note_flush(depth=len(self.nested) + 1)
+        d = len(self.nested) + 1
+        for idx, dd in list(self.ks_depth.items()):
+            if dd == d:
+                self.ks_depth[idx] = d - 1
+                self.ks_released[idx] = d - 1
+        for idx, dd in list(self.ks_released.items()):
+            if dd >= d:
+                self.ks_released[idx] = d - 1
         self.pending_check = False
         self.classes.add("savepoint-release")
         self.check_tx_point("release", outer=False)
@@ -1735,6 +1768,11 @@ class Interp:
         if depth_before >= 2 and {"add", "delete", "modify"} <= rolled:
             self.rich_rollback = True
             self.classes.add("rich-savepoint-rollback")
+        if any(dd >= k + 1 for dd in self.ks_released.values()):
+            self.classes.add("pk-switch-in-released-savepoint-then-outer-rollback")
+        for dct in (self.ks_depth, self.ks_released):
+            for idx in [i for i, dd in dct.items() if dd >= k + 1]:
+                del dct[idx]
         self.model.m_rollback_to(k + 1)
         # documented: a savepoint rollback expires only state that was *modified* since the savepoint; attributes
         # that were merely loaded inside it (possibly showing rows flushed inside it) are expired by the program
@@ -1778,6 +1816,8 @@ class Interp:
         del self.scope_modified[:]
         del self.scope_loaded[:]
         self.rich_rollback = False
+        self.ks_depth.clear()
+        self.ks_released.clear()
         m.m_rollback_to(0)
         for o in m.objs:
             if o.state == "S" and not o.dead:
